@@ -127,7 +127,7 @@ func sameLengthPairCase(r *Rng, nss [][]byte, ordered bool, max int) ([]genTx, i
 	mk := func(ver uint8) genBlob {
 		b := genBlob{ns: ns, ver: ver, data: r.Bytes(dl)}
 		if ver == 1 {
-			b.signer = r.Bytes(20)
+			b.signer = randSigner(r)
 		}
 		return b
 	}
@@ -785,6 +785,7 @@ func genC06(c *Ctx) {
 	list = append(list, boundaryUnitCases(c, r)...)
 	list = append(list, oversizedBlobCases(c, r)...)
 	list = append(list, bigSquareCases(c, r, false)...)
+	list = append(list, nearExactFillCases(c, r)...)
 	for ci, s := range list {
 		if ci < nModel {
 			ops := make([]string, 0, 2*len(s.txs)+2)
@@ -1084,6 +1085,113 @@ func oversizedBlobCases(c *Ctx, r *Rng) []sqCase {
 	return out
 }
 
+// duplicateTxCases: lists in which the same ordinary transaction (byte-identical) occurs several times with
+// share boundaries in between, and the same blob transaction twice - a range looked up by content instead of
+// by position returns the range of another occurrence.
+func duplicateTxCases(c *Ctx, r *Rng) []sqCase {
+	var out []sqCase
+	nss := blobNamespaces(r, 2)
+	for v := 0; v < 6; v++ {
+		a := r.Bytes(5 + r.Intn(30))
+		var l []genTx
+		switch v {
+		case 0:
+			l = []genTx{{raw: a}, {raw: r.Bytes(1000)}, {raw: a}}
+		case 1:
+			a = r.Bytes(200)
+			l = []genTx{{raw: a}, {raw: a}, {raw: a}, {raw: a}, {raw: a}}
+		case 2:
+			l = []genTx{{raw: r.Bytes(470)}, {raw: a}, {raw: r.Bytes(480)}, {raw: a}, {raw: a}}
+		default:
+			pool := [][]byte{a, r.Bytes(300 + r.Intn(300))}
+			for k := 0; k < 5+r.Intn(4); k++ {
+				l = append(l, genTx{raw: pool[r.Intn(2)]})
+			}
+		}
+		if v >= 2 {
+			b := randBlob(r, nss, 900)
+			bl := []genBlob{b}
+			raw := blobTxWithInner(mockPFB(r.Bytes(mockPFBExtraBytes), []uint32{uint32(len(b.data))}), bl)
+			l = append(l, genTx{raw: raw, blobs: bl}, genTx{raw: raw, blobs: bl})
+		}
+		out = append(out, sqCase{txs: l, max: 16, thr: 64})
+		c.count("duplicate_txs")
+	}
+	return out
+}
+
+// nearExactFillCases: one blob transaction whose single large blob (>= 120 shares) brings the worst-case
+// estimate to exactly max*max, one share less, or one share more, for thresholds from 1 to beyond the blob's
+// share count (so that the padding before it is between 0 and width-1), after nothing / a small blob
+// transaction / an ordinary transaction; followed by small transactions.  Any capacity pre-check that is not
+// the estimate itself shows at these fills.
+func nearExactFillCases(c *Ctx, r *Rng) []sqCase {
+	var out []sqCase
+	nss := blobNamespaces(r, 3)
+	maxes := []int{16}
+	if c.tier == "thorough" {
+		maxes = append(maxes, 32)
+	}
+	for _, max := range maxes {
+		for _, thr := range []int{1, 64, 128, 256, 1000} {
+			for prefix := 0; prefix < 3; prefix++ {
+				var pre []genTx
+				switch prefix {
+				case 1:
+					sb := randBlob(r, nss, 300)
+					sbl := []genBlob{sb}
+					pre = append(pre, genTx{raw: blobTxWithInner(mockPFB(r.Bytes(mockPFBExtraBytes), []uint32{uint32(len(sb.data))}), sbl), blobs: sbl})
+				case 2:
+					pre = append(pre, genTx{raw: r.Bytes(300)})
+				}
+				mk := func(shares int, full bool) genTx {
+					b := randBlob(r, nss, 100)
+					b.ver = 0
+					b.signer = nil
+					n := 478 + 482*(shares-1)
+					if !full {
+						n -= 481
+					}
+					b.data = make([]byte, n)
+					b.data[0] = byte(shares)
+					bl := []genBlob{b}
+					return genTx{raw: blobTxWithInner(mockPFB(r.Bytes(mockPFBExtraBytes), []uint32{uint32(n)}), bl), blobs: bl}
+				}
+				est := func(l []genTx) int {
+					var normals [][]byte
+					var pfbs []refTx
+					for _, t := range l {
+						if t.blobs == nil {
+							normals = append(normals, t.raw)
+						} else {
+							pfbs = append(pfbs, classify(t.raw))
+						}
+					}
+					return refEstimate(normals, pfbs, thr)
+				}
+				// the largest share count that still fits
+				best := 0
+				for sh := max * max; sh >= 100; sh-- {
+					if est(append(append([]genTx{}, pre...), mk(sh, true))) <= max*max {
+						best = sh
+						break
+					}
+				}
+				if best == 0 {
+					continue
+				}
+				for _, d := range []int{0, -1, 1} {
+					l := append(append([]genTx{}, pre...), mk(best+d, r.Bool(70)))
+					l = append(l, genTx{raw: r.Bytes(1 + r.Intn(100))})
+					out = append(out, sqCase{txs: l, max: max, thr: thr})
+					c.count("near_exact_fill_big_blob")
+				}
+			}
+		}
+	}
+	return out
+}
+
 // ---- C12 ----
 func shareOfOffset(p int) int {
 	if p < 474 {
@@ -1152,6 +1260,7 @@ func genC12(c *Ctx) {
 	c.rule = "ordered lists (as kept by greedy builds) with tx sizes ending exactly on share ends and PFBs one varint byte shorter than the worst case; TxShareRange for every index -2..len+1 vs the set of shares holding a byte of the unit (recomputed from stream offsets over the real wrapped PFBs), ParseTxs of exactly that range, splitter ShareRanges; non-trivial = distinct (case, index) spanning or starting after the first share"
 	r := c.rng
 	special := pfbAtBoundaryCases(c, r)
+	special = append(special, duplicateTxCases(c, r)...)
 	for i := 0; i < 150*c.scale+len(special); i++ {
 		var s sqCase
 		if i < len(special) {
